@@ -27,11 +27,11 @@ from ..ref.convref import ERR
 LEVEL = "exploration"
 TRUE = ("TRUE",)
 
-A_S = ["a", "0", "7", "x", "u", "n", '"', "'", "\\", "\n", "\r", "\t", "\x00", "é", "￿", "\U0001f600"]
+A_S = ["a", "0", "7", "x", "u", "n", '"', "'", "\\", "\n", "\r", "\t", "\x00", "é", "￿", "\U0001f600", "\ufeff"]
 A_B = [0x00, 0x0A, 0x22, 0x27, 0x41, 0x5C, 0x7F, 0x80, 0xC3, 0xFF]
 A_B_THOROUGH = A_B + [0xC2, 0xE0, 0xED, 0xA0, 0x9F, 0xBF, 0xF0, 0xF4, 0x90, 0x8F]
 B_EXTRA = ["c280", "dfbf", "e0a080", "e09fbf", "ed9fbf", "eda080", "efbfbf", "f0908080", "f08fbfbf", "f48fbfbf", "f4908080",
-           "f5808080", "c080", "c1bf", "e282", "f09f98", "f09f9880", "4180", "c341", "e24180", "f888808080", "c3a9", "e282ac"]
+           "f5808080", "c080", "c1bf", "e282", "f09f98", "f09f9880", "4180", "c341", "e24180", "f888808080", "c3a9", "e282ac", "efbbbf", "efbbbf41", "41efbbbf"]
 KS_QUICK = (7, 8, 15, 16, 31, 32, 53, 62)
 OFFSETS = [0, 330, -330, 840, -840]  # minutes: Z, +05:30, -05:30, +14:00, -14:00
 YEARS_QUICK = [1, 2, 9, 10, 99, 100, 999, 1000, 1582, 1969, 1970, 2000, 2038, 9999]
@@ -77,7 +77,7 @@ def strings(tier):
 
 def strings_card(tier):
     n = 4 if tier == "thorough" else 3
-    return (16 ** (n + 1) - 1) // 15
+    return (len(A_S) ** (n + 1) - 1) // (len(A_S) - 1)
 
 
 def bytestrings(tier):
